@@ -121,7 +121,11 @@ def main():
             c0, w0 = time.process_time(), time.time()
             res = {'kind': an['kind'], 'post': an['post'], 'flat': flat}
             try:
-                msgs = run_checkables(analyze_function(wmod.ob, opts))
+                # side-effect wall (as the crosshair CLI engages it): code under analysis that tries to fork,
+                # open files for writing, connect ... is stopped with SideEffectDetected instead of doing it
+                from crosshair.auditwall import enabled_auditwall
+                with enabled_auditwall():
+                    msgs = run_checkables(analyze_function(wmod.ob, opts))
             except BaseException as e:  # CrossHairInternal and friends
                 res.update(verdict='error', message='%s: %s' % (type(e).__name__, e),
                            trace=traceback.format_exc()[-2000:])
